@@ -374,7 +374,7 @@ def oracle_selfdesc(run, regen=True):
             continue
         uuid, seq, sess_start = want
         it = a.get("init_utc_timestamp")
-        if it is None or abs(int(it) - sess_start * cfg["d"] // cfg["n"]) > 1:
+        if it is None or int(it) != sess_start * cfg["d"] // cfg["n"]:
             out.append(({"class": "init_utc_timestamp"}, "%s init_utc_timestamp %r, session start second %d"
                         % (rel, it, sess_start * cfg["d"] // cfg["n"])))
         if a.get("uuid_str") != uuid:
